@@ -361,3 +361,17 @@ impl<const TAG: u32> std::fmt::Debug for VArc<TAG> {
         write!(f, "VArc#{}", self.peek_label())
     }
 }
+
+impl<const TAG: u32> serde::Serialize for VArc<TAG> {
+    /// Serializes the label; a serializer takes its time, so the value is read, the thread may be
+    /// interrupted, and the value is read again (both reads go through the poison / race oracles).
+    fn serialize<Ser: serde::Serializer>(&self, serializer: Ser) -> Result<Ser::Ok, Ser::Error> {
+        let a = self.get();
+        rt::sched_yield();
+        let b = self.get();
+        if a != b && !rt::draining() {
+            rt::violation("C20", "serde", format!("the value changed from #{} to #{} while it was being serialized", a, b));
+        }
+        serializer.serialize_u64(a)
+    }
+}
